@@ -51,47 +51,89 @@ def _literal_array(project, fi, node):
     return None
 
 
+def _float_seq(node):
+    try:
+        v = ast.literal_eval(node)
+    except Exception:
+        return None
+    if isinstance(v, (list, tuple)) and len(v) >= 2 and all(isinstance(x, (int, float)) and not isinstance(x, bool) for x in v):
+        return [float(x) for x in v]
+    return None
+
+
+def _table_records(project, fi, f):
+    """quadrature rules kept as data: every tuple/list literal (in the function or in a module constant it reads) that
+    holds exactly two equally long sequences of numbers, plus an optional scalar (the upper bound of |r| for the rule)"""
+    roots = [f]
+    locs = local_names(f)
+    for n in ast.walk(f):
+        if isinstance(n, ast.Name) and isinstance(n.ctx, ast.Load) and n.id not in locs and n.id in fi.module.globals:
+            roots.append(fi.module.globals[n.id])
+    recs, seen = [], set()
+    for root in roots:
+        for n in ast.walk(root):
+            if not isinstance(n, (ast.Tuple, ast.List)) or id(n) in seen:
+                continue
+            seqs = [(c, _float_seq(c)) for c in n.elts]
+            seqs = [(c, v) for c, v in seqs if v is not None]
+            scal = [const_value(c) for c in n.elts if const_value(c) is not None]
+            if len(seqs) == 2 and len(seqs[0][1]) == len(seqs[1][1]) and len(n.elts) == 2 + len(scal) and len(scal) <= 1:
+                seen.add(id(n))
+                recs.append((scal[0] if scal else None, seqs[0], seqs[1]))
+    return recs
+
+
 def check_gl(project: Project, rep):
+    from .common import expand_locals, fn_view
     fi = project.function(f"{MOD}.gauss_legendre_quad")
     rep.analysed(fi)
-    f = fi.node
+    f = fn_view(project, fi)
     ret = [n for n in ast.walk(f) if isinstance(n, ast.Return)]
-    if len(ret) != 1 or not isinstance(ret[0].value, ast.Tuple) or len(ret[0].value.elts) != 3:
-        rep.unmodelled("KN-GL", fi, f, "expected a single `return lg, w, x`")
-        return
-    names = [e.id if isinstance(e, ast.Name) else None for e in ret[0].value.elts]
-    lg_n, w_n, x_n = names
     branches = []
+    if len(ret) == 1 and isinstance(ret[0].value, ast.Tuple) and len(ret[0].value.elts) == 3 \
+            and all(isinstance(e, ast.Name) for e in ret[0].value.elts):
+        lg_n, w_n, x_n = (e.id for e in ret[0].value.elts)
 
-    def collect(stmts, cond):
-        assigns = {}
-        for st in stmts:
-            if isinstance(st, ast.Assign) and isinstance(st.targets[0], ast.Name):
-                assigns[st.targets[0].id] = st.value
-            elif isinstance(st, ast.If):
-                collect(st.body, st.test)
-                if st.orelse:
-                    collect(st.orelse, None)
-        if lg_n in assigns and w_n in assigns and x_n in assigns:
-            branches.append((cond, assigns))
+        def collect(stmts, cond):
+            assigns = {}
+            for st in stmts:
+                if isinstance(st, ast.Assign) and isinstance(st.targets[0], ast.Name):
+                    assigns[st.targets[0].id] = st.value
+                elif isinstance(st, ast.If):
+                    collect(st.body, st.test)
+                    if st.orelse:
+                        collect(st.orelse, None)
+            if lg_n in assigns and w_n in assigns and x_n in assigns:
+                branches.append((cond, assigns))
 
-    collect(f.body, None)
-    if len(branches) < 3:
-        rep.unmodelled("KN-GL", fi, f, f"expected three regimes with literal tables, found {len(branches)}")
+        collect(f.body, None)
+    records = []  # (threshold, declared size, weights, nodes, node)
+    if len(branches) >= 3:
+        for cond, assigns in branches:
+            lg = const_value(assigns[lg_n])
+            w = _literal_array(project, fi, assigns[w_n])
+            x = _literal_array(project, fi, assigns[x_n])
+            node = assigns[x_n]
+            if lg is None or w is None or x is None:
+                rep.unmodelled("KN-GL", fi, node, "quadrature table is not a literal")
+                continue
+            thr = None
+            if cond is not None and isinstance(cond, ast.Compare) and len(cond.comparators) == 1:
+                thr = const_value(cond.comparators[0])
+            records.append((thr, int(lg), w, x, node))
+    else:
+        for thr, (n0, s0), (n1, s1) in _table_records(project, fi, f):
+            # which of the two sequences holds the weights: the one that sums to 1
+            if abs(sum(s0) - 1.0) <= abs(sum(s1) - 1.0):
+                w, x, node = s0, s1, n1
+            else:
+                w, x, node = s1, s0, n0
+            records.append((thr, len(x), w, x, node))
+    if len(records) < 3:
+        rep.unmodelled("KN-GL", fi, f, f"expected three regimes with literal tables, found {len(records)}")
         return
     table = []
-    for cond, assigns in branches:
-        lg = const_value(assigns[lg_n])
-        w = _literal_array(project, fi, assigns[w_n])
-        x = _literal_array(project, fi, assigns[x_n])
-        node = assigns[x_n]
-        if lg is None or w is None or x is None:
-            rep.unmodelled("KN-GL", fi, node, "quadrature table is not a literal")
-            continue
-        lg = int(lg)
-        thr = None
-        if cond is not None and isinstance(cond, ast.Compare) and len(cond.comparators) == 1:
-            thr = const_value(cond.comparators[0])
+    for thr, lg, w, x, node in records:
         table.append((thr, lg))
         if len(w) != lg or len(x) != lg:
             rep.refuted("KN-GL", fi, node, f"regime lg={lg}: {len(x)} nodes and {len(w)} weights are returned for a rule "
@@ -128,13 +170,22 @@ def check_gl(project: Project, rep):
         rep.refuted("KN-REGIME", fi, f, f"regime table {got} differs from the published {want}",
                     construct=f"{fi.qualname}: regime table {got}")
     # the regime test must be on |r|
-    for cond, _ in branches:
-        if cond is not None:
-            l = cond.left
-            is_abs = isinstance(l, ast.Call) and (ast.unparse(l.func) in ("np.abs", "abs", "np.absolute", "numpy.abs"))
-            if not is_abs:
-                rep.refuted("KN-REGIME", fi, cond, "the regime is chosen by r, not |r|: negative correlations get the "
-                                                   "3-point rule")
+    rparam = fi.params[0] if fi.params else "r"
+    n_abs = 0
+    for c_ in ast.walk(f):
+        if not (isinstance(c_, ast.Compare) and len(c_.ops) == 1 and isinstance(c_.ops[0], (ast.Lt, ast.LtE))):
+            continue
+        l = expand_locals(f, c_.left)
+        if not any(isinstance(x_, ast.Name) and x_.id == rparam for x_ in ast.walk(l)):
+            continue
+        is_abs = isinstance(l, ast.Call) and (ast.unparse(l.func) in ("np.abs", "abs", "np.absolute", "numpy.abs", "np.fabs"))
+        if is_abs:
+            n_abs += 1
+        elif isinstance(l, ast.Name):
+            rep.refuted("KN-REGIME", fi, c_, "the regime is chosen by r, not |r|: negative correlations get the "
+                                             "3-point rule")
+    if n_abs:
+        rep.discharged("KN-REGIME", fi, f, f"the rule is chosen by comparing |{rparam}| with the regime bounds", nontrivial=False)
 
 
 # ----------------------------------------------------------------------------- KN-GUARD
@@ -196,9 +247,10 @@ def _combine(op, l, r):
 
 
 def check_guards(project: Project, rep):
+    from .common import fn_view
     fi = project.function(f"{MOD}.bvn_cdf")
     rep.analysed(fi)
-    f = fi.node
+    f = fn_view(project, fi)
     cfg = CFG(f)
     cfg.reaching_definitions()
     locs = local_names(f)
@@ -276,8 +328,9 @@ def check_stale(project: Project, rep):
     """KN-STALE: in bvn_cdf the sign of dk/hk is flipped for negative correlation; every quantity that enters the
     expansion afterwards must be computed from the flipped values. A name defined from hk/dk *before* the flip and used
     *after* it (where the flipped hk/dk are also live) is stale: part of the formula sees +hk, the rest −hk."""
+    from .common import fn_view
     fi = project.function(f"{MOD}.bvn_cdf")
-    f = fi.node
+    f = fn_view(project, fi)
     cfg = CFG(f)
     rd = cfg.reaching_definitions()
     # the conditionally re-defined names: x = -x
@@ -344,10 +397,15 @@ DEG = facets.DegDecl(inputs={"gx": 1, "gy": 1, "X": 1, "bg": 1, "pg": 1}, syms={
                                                          "sx": 2, "sy": 2, "w": 1, "h": 1, "m0": 1, "m1": 1, "s": 2, "s1": 2, "s2": 2})
 
 
+def _in_scope(fi, names) -> bool:
+    """the named functions, their private helpers (leading underscore) and functions nested in them"""
+    return fi.name in names or (fi.name.startswith("_") and not fi.name.startswith("__")) or fi.parent is not None
+
+
 def _units(rep, I, fi_names, rule="KN-UNITS"):
     n = 0
     for ev in I.log:
-        if ev["kind"] not in ("transcendental", "compare") or ev["fi"].name not in fi_names:
+        if ev["kind"] not in ("transcendental", "compare") or not _in_scope(ev["fi"], fi_names):
             continue
         if ev["kind"] == "transcendental":
             v = ev["arg"]
@@ -434,7 +492,7 @@ def check_bvn_terms(project: Project, rep):
     hk_vals = []
     aff = []
     for ev in I.log:
-        if ev["kind"] != "assign" or ev["fi"] is not fi:
+        if ev["kind"] != "assign" or not _in_scope(ev["fi"], {"bvn_cdf"}):
             continue
         v = ev["value"]
         e = v.e if isinstance(v, Sc) else getattr(v, "elem", None)
@@ -470,58 +528,83 @@ def check_bvn_terms(project: Project, rep):
 
 
 def check_dispatch(project: Project, rep):
+    """KN-DISPATCH, decided by executing `gaussian` symbolically on a generic mean (mx, my) and covariance
+    [[sxx, sxy], [syx, syy]] while observing (not executing) the calls of the two closed forms: the parameter each value
+    reaches, and the condition under which each form is selected."""
+    from ..core.values import Seq, Unknown
     fi = project.function(f"{MOD}.gaussian")
     rep.analysed(fi)
-    f = fi.node
-    # pattern: if sigma[0][1] == 0: return sbvn_cdf(..., sigma_x=sigma[0][0], sigma_y=sigma[1][1]) else: bvn_cdf(...)
-    calls = {}
-    locs = local_names(f)
-    for n in ast.walk(f):
-        if isinstance(n, ast.Call):
-            t = project.resolve(fi.module, n.func, locs)
-            if t in (f"{MOD}.sbvn_cdf", f"{MOD}.bvn_cdf"):
-                calls[t.rsplit(".", 1)[1]] = n
-    if set(calls) != {"sbvn_cdf", "bvn_cdf"}:
-        rep.unmodelled("KN-DISPATCH", fi, f, "expected a product-form call and a correlated-form call")
+    SB, BV = f"{MOD}.sbvn_cdf", f"{MOD}.bvn_cdf"
+    seen = []
+
+    def stub(name):
+        def h(I, bound, n):
+            seen.append((name, bound, n, list(I.path)))
+            return Sc(sym.Opq(name, (), name))
+        return h
+    I = Interp(project, Config(finite_inputs={"x", "y"}, flags={"stub_func": {SB: stub("sbvn_cdf"), BV: stub("bvn_cdf")}}))
+    S = lambda nme: Sc(sym.Sym(nme))
+    args = {fi.params[0]: Sc(sym.Sym("x")), fi.params[1]: Sc(sym.Sym("y")),
+            "mu": Seq([S("mx"), S("my")], "list"),
+            "sigma": Seq([Seq([S("sxx"), S("sxy")], "list"), Seq([S("syx"), S("syy")], "list")], "list")}
+    try:
+        I.run(fi.qualname, args)
+    except Exception as ex:
+        rep.unmodelled("KN-DISPATCH", fi, fi.node, f"symbolic execution of gaussian failed: {type(ex).__name__}: {ex}"[:200])
         return
-    want = {"sbvn_cdf": {"mu_x": "mu[0]", "mu_y": "mu[1]", "sigma_x": "sigma[0][0]", "sigma_y": "sigma[1][1]"},
-            "bvn_cdf": {"mu_x": "mu[0]", "mu_y": "mu[1]", "sigma_xx": "sigma[0][0]", "sigma_yy": "sigma[1][1]",
-                        "sigma_xy": ("sigma[0][1]", "sigma[1][0]")}}
-    for name, call in calls.items():
+    names = {nme for nme, *_ in seen}
+    if names != {"sbvn_cdf", "bvn_cdf"}:
+        rep.unmodelled("KN-DISPATCH", fi, fi.node, f"expected a product-form call and a correlated-form call; reached {sorted(names)}")
+        return
+    want = {"sbvn_cdf": {"mu_x": ("mx",), "mu_y": ("my",), "sigma_x": ("sxx",), "sigma_y": ("syy",)},
+            "bvn_cdf": {"mu_x": ("mx",), "mu_y": ("my",), "sigma_xx": ("sxx",), "sigma_yy": ("syy",), "sigma_xy": ("sxy", "syx")}}
+    conds = {}
+    for name, bound, node, path in seen:
         callee = project.function(f"{MOD}.{name}")
-        bound = {}
-        for k, a in enumerate(call.args):
-            if k < len(callee.params):
-                bound[callee.params[k]] = ast.unparse(a)
-        for k in call.keywords:
-            bound[k.arg] = ast.unparse(k.value)
-        bad = []
-        for p_, w_ in want[name].items():
-            ws = w_ if isinstance(w_, tuple) else (w_,)
-            if bound.get(p_) not in ws:
-                bad.append((p_, bound.get(p_), ws[0]))
-        first2 = [bound.get(callee.params[0]), bound.get(callee.params[1])]
-        if first2 != [fi.params[0], fi.params[1]]:
-            bad.append(("coordinates", first2, fi.params[:2]))
+        bad, unk = [], []
+        w = dict(want[name])
+        w[callee.params[0]] = ("x",)
+        w[callee.params[1]] = ("y",)
+        for p_, ws in w.items():
+            v = bound.get(p_)
+            if isinstance(v, Sc) and v.e[0] == "sym" and v.e[1] in ws:
+                continue
+            if isinstance(v, Sc) and v.e[0] == "sym":
+                bad.append(f"{p_}={v.e[1]} (should be {ws[0]})")
+            elif v is None:
+                bad.append(f"{p_} is not passed (should be {ws[0]})")
+            else:
+                unk.append(p_)
         if bad:
-            rep.refuted("KN-DISPATCH", fi, call, f"{name} receives " + "; ".join(f"{p_}={g} (should be {w_})" for p_, g, w_ in bad))
+            rep.refuted("KN-DISPATCH", fi, node, f"{name} receives " + "; ".join(bad))
+        elif unk:
+            rep.unmodelled("KN-DISPATCH", fi, node, f"{name}: arguments {unk} not modelled")
         else:
-            rep.discharged("KN-DISPATCH", fi, call, f"{name} receives (birth, pers) and the mean/variance entries on the right "
-                                                    f"keywords")
-    # the test
-    tests = [n for n in ast.walk(f) if isinstance(n, ast.If) and any(c is calls["sbvn_cdf"] for c in ast.walk(n))]
-    ok = False
-    for n in tests:
-        t = n.test
-        if isinstance(t, ast.Compare) and len(t.ops) == 1 and isinstance(t.ops[0], ast.Eq) \
-                and ast.unparse(t.left) in ("sigma[0][1]", "sigma[1][0]") and const_value(t.comparators[0]) == 0 \
-                and any(c is calls["sbvn_cdf"] for b in n.body for c in ast.walk(b)) \
-                and any(c is calls["bvn_cdf"] for b in n.orelse for c in ast.walk(b)):
-            ok = True
-            rep.discharged("KN-DISPATCH", fi, n, "product form is used iff the covariance entry is 0")
-    if not ok:
-        rep.refuted("KN-DISPATCH", fi, f, "the product form is not selected exactly when the covariance entry is zero",
+            rep.discharged("KN-DISPATCH", fi, node, f"{name} receives (birth, pers) and the mean/variance entries on the right "
+                                                    f"parameters")
+        conds.setdefault(name, []).append(sym.And(*path) if path else sym.TRUE)
+    # the product form is used iff the covariance entry is 0
+    import random
+    verdict = True
+    try:
+        for sxy in (0.0, 0.37, -1.2, 1e-9, -1e-12, 1e-300):
+            pt = symeval.Point(random.Random(3))
+            pt.syms.update({"sxy": sxy, "syx": sxy, "sxx": 1.3, "syy": 0.7, "mx": 0.2, "my": -0.4, "x": 0.1, "y": 0.9})
+            prod = any(bool(symeval.ev(c, pt)) for c in conds["sbvn_cdf"])
+            corr = any(bool(symeval.ev(c, pt)) for c in conds["bvn_cdf"])
+            if prod != (sxy == 0.0) or corr != (sxy != 0.0):
+                verdict = False
+    except symeval.NotEvaluable as ex:
+        verdict = None
+    node = seen[0][2]
+    if verdict is True:
+        rep.discharged("KN-DISPATCH", fi, node, "product form is used iff the covariance entry is 0")
+    elif verdict is False:
+        rep.refuted("KN-DISPATCH", fi, fi.node, "the product form is not selected exactly when the covariance entry is zero "
+                                                f"(selected under {sym.show(sym.Or(*conds['sbvn_cdf']))[:120]})",
                     construct=f"{fi.qualname}: dispatch test")
+    else:
+        rep.unmodelled("KN-DISPATCH", fi, fi.node, "dispatch condition not evaluable")
 
 
 def run(project: Project, rep, tier: str):
